@@ -166,6 +166,14 @@ def networks(tier, seed):
                               (["C-", "C+"], ["C", "C"], dict(alpha=5.0)), (["C--", "C++"], ["C", "C"], dict(alpha=6.0))])
     yield N("long-chains", [(["C11", "H"], ["HC11"], dict(alpha=1.0)), (["HC11", "N"], ["HC11N"], dict(alpha=2.0)), (["C", "C10H2"], ["C11", "H2"], dict(alpha=5.0)),
                             (["C10H2", "C2H"], ["C12H3"], dict(alpha=3.0)), (["C12H3", "O"], ["C11", "HCO", "H2"], dict(alpha=4.0))])
+    # names that differ only in letter case are different species (para-H2 next to the phosphorus hydrides)
+    yield N("case-neighbours", [(["pH2", "H+"], ["oH2", "H+"], dict(alpha=1.0)), (["P", "oH2"], ["PH2"], dict(alpha=2.0)), (["PH2", "H"], ["PH", "pH2"], dict(alpha=3.0)),
+                                (["PH", "H"], ["P", "oH2"], dict(alpha=4.0)), (["pH3+", "e-"], ["pH2", "H"], dict(alpha=5.0)), (["PH2", "H+"], ["PH3+"], dict(alpha=6.0)),
+                                (["PH3+", "e-"], ["PH2", "H"], dict(alpha=7.0))])
+    # species whose index macros are so long that a single three-body term does not fit on an emitted line
+    yield N("long-aliases", [(["CH3CH2CH2CH2CH2CH2OH", "HCCCCCCCCCN", "CH3CH2CH2CH2OCH3"], ["CH3CH2CH2CH2CH2CH2OH", "HCCCCCCCCCN", "CH3CH2CH2CH2OCH3"][:1] + ["HCCCCCCCCCN", "CH3CH2CH2CH2OCH3"], dict(alpha=1.0)),
+                             (["CH3CH2CH2CH2CH2CH2OH", "CH3CH2CH2CH2CH2CH2OH", "H"], ["CH3CH2CH2CH2CH2CH2OH", "CH3CH2CH2CH2CH2CH2O", "H2"], dict(alpha=2.0)),
+                             (["CH3CH2CH2CH2CH2CH2O", "H2"], ["CH3CH2CH2CH2CH2CH2OH", "H"], dict(alpha=3.0))])
     cool_reacs = [(["H", "e-"], ["H+", "e-", "e-"], dict(alpha=1.0)), (["He", "e-"], ["He+", "e-", "e-"], dict(alpha=2.0)),
                   (["He+", "e-"], ["He++", "e-", "e-"], dict(alpha=3.0)), (["H+", "e-"], ["H"], dict(alpha=4.0))]
     yield N("cooling-1", cool_reacs, cooling=["CIC_HI"])
@@ -938,6 +946,28 @@ def oracle_for(prop):
                                      + str([x for x in norm(fo) if x not in norm(fb)][:2]), "signature": "C13:modifier-for-absent-species::absent-target"})
             except Exception as e:
                 viol.append({"property": "C13", "network": "modifier-for-absent-species", "what": f"raises: {type(e).__name__}: {e}", "signature": "C13:modifier-for-absent-species::raises"})
+            # two networks in one process, both built without modifiers; modifiers are then added to the first one in place (through the
+            # tables its properties hand out): the second one still has none
+            try:
+                fresh_species_state()
+                reacs = [(["C", "H"], ["CH"], dict(alpha=1.0, idx=1)), (["CH", "H"], ["C", "H2"], dict(alpha=2.0, idx=2)), (["H", "H"], ["H2"], dict(alpha=3.0, idx=3))]
+                na = Network([mk_reaction(*r[:2], **r[2]) for r in reacs])
+                nb = Network([mk_reaction(*r[:2], **r[2]) for r in reacs])
+                before = Rendered(nb, BACKENDS[0])
+                ref_f, ref_k = sorted(before.fex_statements()), strip_comments(before.rates_text)
+                na.rate_modifier[2] = "7.5e-12"
+                na.ode_modifier["H2"] = {"factors": ["-fdiss"], "reactants": [["H2"]]}
+                cases += 1
+                after = Rendered(nb, BACKENDS[0])
+                if sorted(after.fex_statements()) != ref_f or strip_comments(after.rates_text) != ref_k or nb.rate_modifier or nb.ode_modifier:
+                    viol.append({"property": "C13", "network": "two-networks-one-edited", "what": f"untargeted-network-changed: modifiers added to one network show up in another: rate_modifier {dict(nb.rate_modifier)}, ode_modifier {dict(nb.ode_modifier)}",
+                                 "signature": "C13:two-networks-one-edited::untargeted-network-changed"})
+                fa = Rendered(na, BACKENDS[0])
+                if "7.5e-12" not in strip_comments(fa.rates_text) or not any("fdiss" in r for _, r in fa.fex_statements()):
+                    viol.append({"property": "C13", "network": "two-networks-one-edited", "what": "in-place-edit-lost: modifiers added to a network in place do not reach its sources",
+                                 "signature": "C13:two-networks-one-edited::in-place-edit-lost"})
+            except Exception as e:
+                viol.append({"property": "C13", "network": "two-networks-one-edited", "what": f"raises: {type(e).__name__}: {e}", "signature": "C13:two-networks-one-edited::raises"})
         fresh_species_state()
         return {"cases": cases, "distinct": cases, "violations": viol, "samples": samples,
                 "bound": "hand-picked small networks (<= 6 reactions, <= 3 reactants, <= 5 products) + seeded random networks x 4 back ends",
